@@ -73,18 +73,40 @@ def sanitizer_lib(variant):
 
 
 def _clean_old(keep_hash):
+    """Remove builds of OTHER tree hashes of the SAME source directory that
+    have not been used for 30 minutes (scratch copies used by the self-test
+    remove their own builds)."""
     base = scratch()
+    me = os.path.realpath(repo())
     for d in os.listdir(base):
         p = os.path.join(base, d)
-        if d.startswith('b-') and not d.startswith('b-' + keep_hash):
-            # only remove builds older than 6 h or of another tree when no
-            # concurrent run can be using them (lock file absent/old)
+        if not d.startswith('b-') or d.startswith('b-' + keep_hash):
+            continue
+        try:
+            src = open(os.path.join(p, '.source')).read().strip()
+            age = time.time() - os.path.getmtime(p)
+        except OSError:
+            # unfinished or legacy build directory
             try:
                 age = time.time() - os.path.getmtime(p)
             except OSError:
                 continue
-            if age > 1800:
+            src = me if age > 7200 else None
+        if src == me and age > 1800:
+            shutil.rmtree(p, ignore_errors=True)
+
+
+def remove_builds_of(source_dir):
+    base = scratch()
+    me = os.path.realpath(source_dir)
+    for d in os.listdir(base):
+        p = os.path.join(base, d)
+        try:
+            if d.startswith('b-') and open(os.path.join(
+                    p, '.source')).read().strip() == me:
                 shutil.rmtree(p, ignore_errors=True)
+        except OSError:
+            pass
 
 
 def ensure(variant='plain'):
@@ -125,6 +147,8 @@ def ensure(variant='plain'):
             shutil.rmtree(tmp, ignore_errors=True)
             raise RuntimeError('build of variant %s failed' % variant)
         shutil.rmtree(os.path.join(tmp, 'build'), ignore_errors=True)
+        with open(os.path.join(tmp, '.source'), 'w') as f:
+            f.write(os.path.realpath(src) + '\n')
         with open(os.path.join(tmp, '.built'), 'w') as f:
             f.write('%s %s %.1fs\n' % (h, variant, time.time() - t0))
         shutil.rmtree(dest, ignore_errors=True)
